@@ -103,6 +103,21 @@ def catalogue(tier):
         for g in (True, False):
             add("DPSK(%d,gray=%s)" % (order, g), "dpsk", int(math.log2(order)), (lambda o=order, g=g: M.DPSKModulator(order=o, gray_coding=g)),
                 (lambda o=order, g=g: M.DPSKDemodulator(order=o, gray_coding=g)), gray=g, unit=True, component="DPSK", cfg={"order": order, "gray": g})
+    # the documented alternative keywords (bits_per_symbol, gray_coded) and fully positional construction
+    for b in (2, 3):
+        add("DPSK(bits_per_symbol=%d,gray_coded=False)" % b, "dpsk", b, (lambda b=b: M.DPSKModulator(bits_per_symbol=b, gray_coded=False)),
+            (lambda b=b: M.DPSKDemodulator(bits_per_symbol=b, gray_coded=False)), gray=False, unit=True, component="DPSK",
+            cfg={"order": 2 ** b, "gray": False, "form": "bits_per_symbol, gray_coded"})
+    add("DPSK(order=4,gray_coded=False)", "dpsk", 2, (lambda: M.DPSKModulator(order=4, gray_coded=False)), (lambda: M.DPSKDemodulator(order=4, gray_coded=False)),
+        gray=False, unit=True, component="DPSK", cfg={"order": 4, "gray": False, "form": "order, gray_coded"})
+    add("DPSK(8,False)", "dpsk", 3, (lambda: M.DPSKModulator(8, False)), (lambda: M.DPSKDemodulator(8, False)), gray=False, unit=True, component="DPSK",
+        cfg={"order": 8, "gray": False, "form": "positional"})
+    add("PSK(8,False)", "memoryless", 3, (lambda: M.PSKModulator(8, False)), (lambda: M.PSKDemodulator(8, False)), gray=False, unit=True, component="PSK",
+        cfg={"order": 8, "gray": False, "form": "positional"})
+    add("QAM(16,False,False)", "memoryless", 4, (lambda: M.QAMModulator(16, False, False)), (lambda: M.QAMDemodulator(16, False, False)), gray=False, unit=False,
+        component="QAM", cfg={"order": 16, "gray": False, "normalize": False, "form": "positional"})
+    add("PAM(8,False,False)", "memoryless", 3, (lambda: M.PAMModulator(8, False, False)), (lambda: M.PAMDemodulator(8, False, False)), gray=False, unit=False,
+        component="PAM", cfg={"order": 8, "gray": False, "normalize": False, "form": "positional"})
     add("DBPSK", "dpsk", 1, (lambda: M.DBPSKModulator()), (lambda: M.DBPSKDemodulator()), unit=True, component="DPSK", cfg={"order": 2, "gray": False, "alias": "dbpsk"})
     add("DQPSK", "dpsk", 2, (lambda: M.DQPSKModulator()), (lambda: M.DQPSKDemodulator()), gray=True, unit=True, component="DPSK", cfg={"order": 4, "gray": True, "alias": "dqpsk"})
     for nz in (True, False):
@@ -162,6 +177,7 @@ def scheme_event(s, tid, limit=8000):
     S = int(scale_for(pts, limit))
     ipts = [[sint(x * S), sint(y * S)] for x, y in pts]
     modidx = []
+    int_diffs = []
     if s.kind != "oqpsk" and len(labels) == len(pts):
         m = s.mod()
         if hasattr(m, "reset_state"):
@@ -176,5 +192,18 @@ def scheme_event(s, tid, limit=8000):
                 modidx.append(0)
             if hasattr(m, "reset_state"):
                 m.reset_state()
+            # the same label as an integer bit tensor (the form the library's examples use): a modulator may reject it, but an answer that
+            # differs from the float form replaces the entry, so that the specification judges it
+            try:
+                yi = m(torch.tensor([bits], dtype=torch.int64))
+                zi = complex(yi.reshape(-1)[0])
+                ii = nearest_index(zi, pts) + 1
+                if ii != modidx[-1]:
+                    modidx[-1] = ii
+                    int_diffs.append(L)
+            except Exception:
+                pass
+            if hasattr(m, "reset_state"):
+                m.reset_state()
     return {"ev": "Scheme", "tid": tid, "name": s.name, "b": s.b, "S": S, "pts": ipts, "labels": labels, "gray": bool(s.gray), "unit": bool(s.unit),
-            "modidx": modidx, "slack": 90000}
+            "modidx": modidx, "slack": 90000, "labels_whose_integer_form_differs": int_diffs}
